@@ -9,6 +9,9 @@ from ..astutil import (
 )
 from ..cfg import no_exc
 from ..report import Registry, sub
+from ._helpers_rob_f2 import (
+    atoms as _atoms, dominating_guards, env_of, guard_atom_exprs_at, guard_atoms_at, inline_local_calls, prune_edges, resolve_name,
+)
 
 R = Registry(
     "C37",
@@ -65,39 +68,107 @@ def _env(fn):
     return env
 
 
-def _mirror_calls(h):
-    """[(op, impl var, call)] for X.append / X.pop / X.remove where X is bound from `<S>.manager[key].impl`"""
-    env = _env(h)
+class _Handler:
+    """One backref handler with the local helpers it calls inlined (closures of _backref_listeners and functions of the
+    module, up to three levels): the rules reason about `what the handler does under which branch outcomes`, wherever
+    the statements are written."""
+
+    def __init__(self, ctx, f, name):
+        nf = nested_functions(f.node)
+        ctx.require(name in nf, f"{BL}: handler {name} is not a local function")
+        self.orig = nf[name]
+        mod_funcs = {n: fi.node for n, fi in f.module.functions.items() if isinstance(getattr(fi, "node", None), ast.FunctionDef)}
+
+        def resolve(n):
+            if n in nf:
+                return nf[n]
+            return mod_funcs.get(n)
+
+        self.fn, self.inlined = inline_local_calls(self.orig, resolve)
+        self.name = name
+        self.params = [a.arg for a in self.orig.args.args]
+        self.pm = parent_map(self.fn)
+        self.env = env_of(self.fn)
+        self.g = ctx.cfg(self.fn)
+
+    def guards(self, node):
+        return guard_atom_exprs_at(self.g, self.pm, node, self.env)
+
+
+def _handler(ctx, f, name) -> _Handler:
+    cache = ctx.__dict__.setdefault("_c37_handlers", {})
+    if name not in cache:
+        cache[name] = _Handler(ctx, f, name)
+    return cache[name]
+
+
+def _impl_state(env, node, depth=4):
+    """`S` when node denotes `S.manager[<k>].impl` (through single-definition aliases of the impl, the manager and the
+    state), else None"""
+    node = resolve_name(env, node)
+    if isinstance(node, ast.Name):
+        ds = [d for d in env.get(node.id, [])]
+        if ds and depth > 0 and all(d is not None for d in ds):
+            got = {_impl_state(env, d, depth - 1) for d in ds}
+            return got.pop() if len(got) == 1 else None
+        return None
+    if not (isinstance(node, ast.Attribute) and node.attr == "impl" and isinstance(node.value, ast.Subscript)):
+        return None
+    mgr = resolve_name(env, node.value.value)
+    if not (isinstance(mgr, ast.Attribute) and mgr.attr == "manager"):
+        return None
+    st = mgr.value
+    # the state itself may be an alias of another local
+    while isinstance(st, ast.Name):
+        ds = env.get(st.id, [])
+        if len(ds) == 1 and isinstance(ds[0], ast.Name):
+            st = ds[0]
+        else:
+            break
+    return st.id if isinstance(st, ast.Name) else None
+
+
+def _mirror_calls(h, env=None):
+    """[(op, impl text, call)] for X.append / X.pop / X.remove where X denotes `<S>.manager[key].impl`"""
+    env = _env(h) if env is None else env
     out = []
     for c in calls_in(h):
-        if isinstance(c.func, ast.Attribute) and c.func.attr in ("append", "pop", "remove") and isinstance(c.func.value, ast.Name):
-            x = c.func.value.id
-            defs = env.get(x, [])
-            if defs and all(isinstance(d, ast.Attribute) and d.attr == "impl" and ".manager[" in unparse(d) for d in defs):
-                out.append((c.func.attr, x, c))
+        if isinstance(c.func, ast.Attribute) and c.func.attr in ("append", "pop", "remove"):
+            if _impl_state(env, c.func.value) is not None:
+                out.append((c.func.attr, unparse(c.func.value), c))
+    out.sort(key=lambda t: (t[2].lineno, t[2].col_offset))
     return out, env
 
 
 def _object_of(env, name, depth=0):
     """the handler parameter whose instance_state/instance_dict `name` is"""
     for d in env.get(name, []):
-        if isinstance(d, ast.Call) and (call_name(d) or "").split(".")[-1] in ("instance_state", "instance_dict") and d.args \
-                and isinstance(d.args[0], ast.Name):
-            return d.args[0].id
+        d = resolve_name(env, d) if d is not None else d
+        if isinstance(d, ast.Call) and (call_name(d) or "").split(".")[-1] in ("instance_state", "instance_dict") and d.args:
+            a0 = resolve_name(env, d.args[0])
+            if isinstance(a0, ast.Name):
+                return a0.id
     return None
 
 
 def _who(env, x, new_p, old_p):
-    """('new'|'old'|None, state var, object param) of the impl variable x"""
-    sname = None
-    for d in env.get(x, []):
-        base = d.value
-        while isinstance(base, (ast.Subscript, ast.Attribute)):
-            base = base.value
-        sname = base.id if isinstance(base, ast.Name) else None
+    """('new'|'old'|None, state var, object param) of the impl expression x (ast or text)"""
+    node = ast.parse(x, mode="eval").body if isinstance(x, str) else x
+    sname = _impl_state(env, node)
     obj = _object_of(env, sname) if sname else None
     who = "new" if obj == new_p else ("old" if old_p and obj == old_p else None)
     return who, sname, obj
+
+
+def _same_state(env, node, sname):
+    n = node
+    while isinstance(n, ast.Name) and n.id != sname:
+        ds = env.get(n.id, [])
+        if len(ds) == 1 and isinstance(ds[0], ast.Name):
+            n = ds[0]
+        else:
+            break
+    return isinstance(n, ast.Name) and n.id == sname
 
 
 @R.rule("C37-R1", floor=6, template="T-SIBLING",
@@ -106,22 +177,21 @@ def _who(env, x, new_p, old_p):
 def r1(ctx):
     f = ctx.func(BL)
     regs = _registrations(ctx, f)
-    nf = nested_functions(f.node)
     for evn, want in MIRROR.items():
         if evn not in regs:
             ctx.note(f"no listener for {evn} (reported by C37-R3)")
             continue
         hname = regs[evn][0]
-        ctx.require(hname in nf, f"{BL}: handler {hname} is not a local function")
-        h = nf[hname]
-        ps = [a.arg for a in h.args.args]
+        H = _handler(ctx, f, hname)
+        h, env, g = H.fn, H.env, H.g
+        ps = H.params
         ctx.require(len(ps) >= 3, f"{BL}.{hname}: signature not understood")
         st_p, new_p = ps[0], ps[1]
         old_p = ps[2] if evn == "set" else None
-        calls, env = _mirror_calls(h)
+        calls, _ = _mirror_calls(h, env)
         seen = set()
         for op, x, c in calls:
-            who, sname, obj = _who(env, x, new_p, old_p)
+            who, sname, obj = _who(env, c.func.value, new_p, old_p)
             norm_op = "pop" if op in ("pop", "remove") else op
             key = f"{BL}.{hname}:{norm_op}:{who or obj}"
             loc = f"{f.module.path}:{c.lineno}"
@@ -132,37 +202,58 @@ def r1(ctx):
             if op == "remove":
                 probs.append("uses impl.remove (raises when the reverse side is already in sync) instead of impl.pop")
             a = c.args
-            if len(a) < 3 or not (isinstance(a[0], ast.Name) and a[0].id == sname):
+            if len(a) < 3 or not _same_state(env, a[0], sname):
                 probs.append("first argument is not the state the impl was looked up on")
-            if len(a) >= 2 and not (isinstance(a[1], ast.Name) and _object_of(env, a[1].id) == obj):
-                probs.append("dict argument belongs to another object than the state")
-            if len(a) < 3 or unparse(a[2]) != f"{st_p}.obj()":
-                probs.append(f"value passed to the reverse attribute is `{unparse(a[2]) if len(a) > 2 else '?'}` not the parent `{st_p}.obj()`")
+            if len(a) >= 2:
+                a1 = resolve_name(env, a[1])
+                d_obj = None
+                if isinstance(a[1], ast.Name):
+                    d_obj = _object_of(env, a[1].id)
+                if d_obj is None and isinstance(a1, ast.Call) and (call_name(a1) or "").split(".")[-1] == "instance_dict" and a1.args:
+                    r0 = resolve_name(env, a1.args[0])
+                    d_obj = r0.id if isinstance(r0, ast.Name) else None
+                if d_obj is None and isinstance(a1, ast.Attribute) and a1.attr == "dict" and _same_state(env, a1.value, sname):
+                    d_obj = obj
+                if d_obj != obj:
+                    probs.append("dict argument belongs to another object than the state")
+            val = unparse(resolve_name(env, a[2])) if len(a) > 2 else "?"
+            if val != f"{st_p}.obj()":
+                probs.append(f"value passed to the reverse attribute is `{val}` not the parent `{st_p}.obj()`")
             pk = [k for k in c.keywords if k.arg == "passive"]
-            if not pk or not unparse(pk[0].value).endswith("PASSIVE_NO_FETCH"):
+            if not pk or not unparse(resolve_name(env, pk[0].value)).endswith("PASSIVE_NO_FETCH"):
                 probs.append("passive=PASSIVE_NO_FETCH missing (mirroring would load the reverse collection)")
             seen.add((norm_op, who))
             ctx.check(not probs, key, "; ".join(probs), f"{x}.{op}(…, {st_p}.obj(), passive=PASSIVE_NO_FETCH)", loc)
         for miss in sorted(want - seen):
             ctx.violation(f"{BL}.{hname}:{miss[0]}:{miss[1]}",
                           f"'{evn}' handler never performs {miss[0]} on the {miss[1]} child's reverse attribute: "
-                          f"the two sides would disagree after this event", f"{f.module.path}:{h.lineno}")
+                          f"the two sides would disagree after this event", f"{f.module.path}:{H.orig.lineno}")
         if evn in ("set", "append"):
+            # a retval handler's result becomes the value that is stored: on every normal path on which the child is
+            # not None the handler must return the child (paths that imply `child is None` may return None)
+            none_atom = f"{new_p} is None"
+            alive = prune_edges(g, lambda ats: (none_atom, True) in ats, env)
+            live = g.reachable([g.entry], edge_ok=alive)
             rets = [r for r in walk_local(h) if isinstance(r, ast.Return)]
-            pm = f.module.parents()
             bad = []
             for r in rets:
-                if isinstance(r.value, ast.Name) and r.value.id == new_p:
+                v = resolve_name(env, r.value) if r.value is not None else None
+                if isinstance(v, ast.Name) and v.id == new_p:
                     continue
-                atoms = guard_atoms(lexical_guards(pm, r, stop=h))
-                if r.value is None and (f"{new_p} is None", True) in atoms:
+                if isinstance(r.value, ast.Name) and env.get(r.value.id) and all(
+                        d is not None and isinstance(resolve_name(env, d), ast.Name) and resolve_name(env, d).id == new_p for d in env[r.value.id]):
+                    continue
+                if not any(i in live for i in g.nodes_for(r)):
                     continue
                 bad.append(unparse(r))
-            g = ctx.cfg(h)
-            falls = g.exit in g.reachable([g.entry], avoid=[i for r in rets for i in g.nodes_for(r)], edge_ok=no_exc)
+            falls = g.exit in g.reachable([g.entry], avoid=[i for r in rets for i in g.nodes_for(r)], edge_ok=alive)
             ctx.check(not bad and not falls, f"{BL}.{hname}:retval",
                       f"retval=True handler does not return the child on every path ({bad or 'falls off the end'}): "
-                      f"the attribute would be set to None", "returns child", f"{f.module.path}:{h.lineno}")
+                      f"the attribute would be set to None", "returns child", f"{f.module.path}:{H.orig.lineno}")
+
+
+def _is_name(node, name):
+    return isinstance(node, ast.Name) and node.id == name
 
 
 @R.rule("C37-R2", floor=4, template="T-GUARD",
@@ -172,42 +263,51 @@ def r2(ctx):
     f = ctx.func(BL)
     regs = _registrations(ctx, f)
     nf = nested_functions(f.node)
-    pm = f.module.parents()
     for evn in MIRROR:
         if evn not in regs or regs[evn][0] not in nf:
             continue
-        h = nf[regs[evn][0]]
-        ps = [a.arg for a in h.args.args]
+        H = _handler(ctx, f, regs[evn][0])
+        h, env = H.fn, H.env
+        ps = H.params
         init_p = "initiator" if "initiator" in ps else ps[-1]
-        calls, env = _mirror_calls(h)
+        calls, _ = _mirror_calls(h, env)
         for i, (op, x, c) in enumerate(calls):
             norm_op = "pop" if op in ("pop", "remove") else op
-            who, _, obj = _who(env, x, ps[1], ps[2] if evn == "set" else None)
-            key = f"{BL}.{h.name}:{norm_op}:{who or obj}:guard"
-            atoms = guard_atoms(lexical_guards(pm, c, stop=h))
+            who, x_state, obj = _who(env, c.func.value, ps[1], ps[2] if evn == "set" else None)
+            key = f"{BL}.{H.name}:{norm_op}:{who or obj}:guard"
             toks = []
             foreign = []
-            covered = False  # some guard name has, in EVERY one of its definitions, a family token of x
-            for a, pol in atoms:
-                if a.startswith(f"{init_p} is ") and pol is False:
-                    tname = a[len(init_p) + 4:]
-                    defs = env.get(tname, [])
-                    if not defs and "." in tname:
-                        defs = [ast.parse(tname, mode="eval").body]
-                    per_def = []
-                    for d in defs:
-                        mine = set()
-                        for n in ast.walk(d):
-                            if isinstance(n, ast.Attribute) and n.attr.endswith("_token") and n.attr != "parent_token":
-                                owner = dotted(n.value)
-                                if owner == x:
-                                    toks.append(n.attr)
-                                    mine.add(n.attr)
-                                else:
-                                    foreign.append(f"{owner}.{n.attr}")
-                        per_def.append(mine)
-                    if per_def and all(m_ & GUARD_TOKEN[norm_op] for m_ in per_def):
-                        covered = True
+            covered = False  # some guard token has, in EVERY one of its definitions, a family token of x
+            for e, pol in H.guards(c):
+                if pol is not False or not (isinstance(e, ast.Compare) and len(e.ops) == 1 and isinstance(e.ops[0], ast.Is)):
+                    continue
+                lhs, rhs = e.left, e.comparators[0]
+                if _is_name(lhs, init_p):
+                    tok = rhs
+                elif _is_name(rhs, init_p):
+                    tok = lhs
+                else:
+                    continue
+                if isinstance(tok, ast.Name):
+                    defs = [d for d in env.get(tok.id, [])]
+                    if any(d is None for d in defs):
+                        defs = []
+                    defs = [resolve_name(env, d) for d in defs]
+                else:
+                    defs = [tok]
+                per_def = []
+                for d in defs:
+                    mine = set()
+                    for n in ast.walk(d):
+                        if isinstance(n, ast.Attribute) and n.attr.endswith("_token") and n.attr != "parent_token":
+                            if _impl_state(env, n.value) == x_state and x_state is not None:
+                                toks.append(n.attr)
+                                mine.add(n.attr)
+                            else:
+                                foreign.append(f"{dotted(n.value) or unparse(n.value)}.{n.attr}")
+                    per_def.append(mine)
+                if per_def and all(m_ & GUARD_TOKEN[norm_op] for m_ in per_def):
+                    covered = True
             need = GUARD_TOKEN[norm_op]
             probs = []
             if not covered:
@@ -225,6 +325,8 @@ def r3(ctx):
     f = ctx.func(BL)
     regs = _registrations(ctx, f)
     pm = f.module.parents()
+    g = ctx.cfg(f)
+    env = env_of(f.node)
     want = {"append": ("uselist", True), "set": ("uselist", False), "remove": None}
     for evn, cond in want.items():
         key = f"{BL}:listen:{evn}"
@@ -232,7 +334,8 @@ def r3(ctx):
             ctx.violation(key, f"no backref listener registered for the '{evn}' event", f.loc)
             continue
         hname, kw, c = regs[evn]
-        atoms = guard_atoms(lexical_guards(pm, c, stop=f.node))
+        # branch outcomes that dominate the registration (if/else either way round, early return, `coll = uselist`)
+        atoms = list(dict.fromkeys(guard_atoms_at(g, pm, c, env)))
         probs = []
         if cond is None and atoms:
             probs.append(f"'remove' listener is conditional on {atoms}")
@@ -527,17 +630,27 @@ def r6(ctx):
     regs = _registrations(ctx, f)
     nf = nested_functions(f.node)
     ctx.require("remove" in regs and regs["remove"][0] in nf, f"{BL}: remove handler not found")
-    h = nf[regs["remove"][0]]
-    st_p = h.args.args[0].arg
-    calls, env = _mirror_calls(h)
+    H = _handler(ctx, f, regs["remove"][0])
+    h, env = H.fn, H.env
+    st_p = H.params[0]
+    calls, _ = _mirror_calls(h, env)
     pops = [c for op, x, c in calls if op in ("pop", "remove")]
-    pm = f.module.parents()
     tests = []
+
+    def live_collection(node):
+        node = resolve_name(env, node)
+        return isinstance(node, ast.Subscript) and dotted(resolve_name(env, node.value)) == f"{st_p}.dict"
+
     for mc in pops[:1]:
-        for t, pol in lexical_guards(pm, mc, stop=h):
-            for c in calls_in(t):
-                if c.args and isinstance(c.args[0], ast.Subscript) and dotted(c.args[0].value) == f"{st_p}.dict":
-                    tests.append(c)
+        for t, pol in dominating_guards(H.g, H.pm, mc):
+            exprs = [t]
+            for n in ast.walk(t):  # `dupes = util.has_dupes(..)` evaluated before the branch
+                if isinstance(n, ast.Name) and len(env.get(n.id, [])) == 1 and env[n.id][0] is not None:
+                    exprs.append(env[n.id][0])
+            for e in exprs:
+                for c in calls_in(e):
+                    if c.args and live_collection(c.args[0]) and c not in tests:
+                        tests.append(c)
     hkey = f"{BL}.{h.name}:occurrence-test"
     if not tests:
         ctx.ok(hkey, "the handler does not consult the live collection (or has no mirror pop: C37-R1): no phase is presupposed")
@@ -663,12 +776,230 @@ R.mutant("benign-scalar-set-event-via-local", ATTR,
              "        vetted = self.fire_replace_event(state, dict_, value, old, initiator)\n        dict_[self.key] = vetted\n"), None)
 # --- C37-R6
 R.mutant("seed2-list-remove-event-after-removal", COLL,
-         sub("            __del(self, value, _sa_initiator, NO_KEY)\n            # testlib.pragma exempt:__eq__\n            fn(self, value)\n",
+         sub("            # testlib.pragma exempt:__eq__\n            if value in self:\n                __del(self, value, _sa_initiator, NO_KEY)\n            # testlib.pragma exempt:__eq__\n            fn(self, value)\n",
              "            if _sa_initiator is not False:\n                __before_pop(self, _sa_initiator)\n            # testlib.pragma exempt:__eq__\n            fn(self, value)\n            __del(self, value, _sa_initiator, NO_KEY)\n"), "C37-R6")
 R.mutant("list-delitem-event-after-removal", COLL,
          sub("                item = self[index]\n                __del(self, item, None, index)\n                fn(self, index)\n",
              "                item = self[index]\n                fn(self, index)\n                __del(self, item, None, index)\n"), "C37-R6")
 R.mutant("has-dupes-true-from-one", "util/_collections.py", sub("            if c > 1:\n                return True\n", "            if c > 0:\n                return True\n"), "C37-R6")
 R.mutant("benign-list-remove-rename", COLL,
-         sub("        def remove(self, value, _sa_initiator=None):\n            __del(self, value, _sa_initiator, NO_KEY)\n            # testlib.pragma exempt:__eq__\n            fn(self, value)\n",
-             "        def remove(self, item, _sa_initiator=None):\n            __del(self, item, _sa_initiator, NO_KEY)\n            # testlib.pragma exempt:__eq__\n            fn(self, item)\n"), None)
+         sub("        def remove(self, value, _sa_initiator=None):\n            # testlib.pragma exempt:__eq__\n            if value in self:\n                __del(self, value, _sa_initiator, NO_KEY)\n            # testlib.pragma exempt:__eq__\n            fn(self, value)\n",
+             "        def remove(self, item, _sa_initiator=None):\n            is_member = item in self\n            if is_member:\n                __del(self, item, _sa_initiator, NO_KEY)\n            fn(self, item)\n"), None)
+
+
+# -------------------------------------------------------------------------------------- rob-F2: benign refactor families
+_APPEND_BLOCK_SET = (
+    "            child_state, child_dict = (\n                instance_state(child),\n                instance_dict(child),\n            )\n"
+    "            child_impl = child_state.manager[key].impl\n\n"
+    "            if (\n                initiator.parent_token is not parent_token\n                and initiator.parent_token is not child_impl.parent_token\n            ):\n"
+    "                _acceptable_key_err(state, initiator, child_impl)\n\n"
+    "            # tokens to test for a recursive loop.\n"
+    "            check_append_token = child_impl._append_token\n"
+    "            check_bulk_replace_token = (\n                child_impl._bulk_replace_token\n                if _is_collection_attribute_impl(child_impl)\n                else None\n            )\n\n"
+    "            if (\n                initiator is not check_append_token\n                and initiator is not check_bulk_replace_token\n            ):\n"
+    "                child_impl.append(\n                    child_state,\n                    child_dict,\n                    state.obj(),\n                    initiator,\n                    passive=PASSIVE_NO_FETCH,\n                )\n"
+    "        return child\n"
+)
+_APPEND_BLOCK_COLL = (
+    "        child_state, child_dict = instance_state(child), instance_dict(child)\n"
+    "        child_impl = child_state.manager[key].impl\n\n"
+    "        if (\n            initiator.parent_token is not parent_token\n            and initiator.parent_token is not child_impl.parent_token\n        ):\n"
+    "            _acceptable_key_err(state, initiator, child_impl)\n\n"
+    "        # tokens to test for a recursive loop.\n"
+    "        check_append_token = child_impl._append_token\n"
+    "        check_bulk_replace_token = (\n            child_impl._bulk_replace_token\n            if _is_collection_attribute_impl(child_impl)\n            else None\n        )\n\n"
+)
+_APPEND_TAIL_COLL = (
+    "        if (\n            initiator is not check_append_token\n            and initiator is not check_bulk_replace_token\n        ):\n"
+    "            child_impl.append(\n                child_state,\n                child_dict,\n                state.obj(),\n                initiator,\n                passive=PASSIVE_NO_FETCH,\n            )\n"
+    "        return child\n\n    def emit_backref_from_collection_remove_event(\n"
+)
+
+
+def _chain(*edits):
+    def edit(src):
+        for e in edits:
+            src = e(src)
+        return src
+    return edit
+
+
+# family rfF_8: the block duplicated in the set and the append handler becomes one closure called by both
+R.mutant("benign-append-block-extracted-to-closure", ATTR,
+         _chain(sub(_APPEND_BLOCK_SET, "            _mirror_append(state, child, initiator)\n        return child\n"),
+                sub(_APPEND_BLOCK_COLL + _APPEND_TAIL_COLL,
+                    "        _mirror_append(state, child, initiator)\n        return child\n\n"
+                    "    def _mirror_append(parent_state, target, token):\n"
+                    + (_APPEND_BLOCK_COLL + _APPEND_TAIL_COLL.replace("        return child\n\n    def emit_backref_from_collection_remove_event(\n", ""))
+                    .replace("(state, initiator, child_impl)", "(parent_state, token, child_impl)")
+                    .replace("instance_state(child), instance_dict(child)", "instance_state(target), instance_dict(target)")
+                    .replace("initiator", "token").replace("state.obj()", "parent_state.obj()")
+                    + "\n    def emit_backref_from_collection_remove_event(\n")),
+         None)
+# same, but the helper is a module level function that receives the closure variables and returns the child
+R.mutant("benign-append-block-extracted-to-module-function", ATTR,
+         _chain(sub(_APPEND_BLOCK_COLL + _APPEND_TAIL_COLL,
+                    "        return _backref_append(state, child, initiator, key, parent_token, _acceptable_key_err)\n\n"
+                    "    def emit_backref_from_collection_remove_event(\n"),
+                sub("def _backref_listeners(\n",
+                    "def _backref_append(state, child, initiator, key, parent_token, _acceptable_key_err):\n"
+                    + _APPEND_BLOCK_COLL.replace("\n        ", "\n    ").replace("        child_state, child_dict", "    child_state, child_dict", 1)
+                    + "    if initiator is check_append_token or initiator is check_bulk_replace_token:\n        return child\n"
+                      "    child_impl.append(\n        child_state,\n        child_dict,\n        state.obj(),\n        initiator,\n        passive=PASSIVE_NO_FETCH,\n    )\n    return child\n\n\n"
+                      "def _backref_listeners(\n")),
+         None)
+# the recursion test as an early return
+R.mutant("benign-append-guard-early-return", ATTR,
+         sub(_APPEND_TAIL_COLL,
+             "        if (\n            initiator is check_append_token\n            or initiator is check_bulk_replace_token\n        ):\n            return child\n"
+             "        child_impl.append(\n            child_state,\n            child_dict,\n            state.obj(),\n            initiator,\n            passive=PASSIVE_NO_FETCH,\n        )\n"
+             "        return child\n\n    def emit_backref_from_collection_remove_event(\n"),
+         None)
+# the recursion test as a boolean local + inverted if/else
+R.mutant("benign-append-guard-boolean-local", ATTR,
+         sub(_APPEND_TAIL_COLL,
+             "        recursing = (\n            initiator is check_append_token\n            or initiator is check_bulk_replace_token\n        )\n"
+             "        if recursing:\n            pass\n        else:\n"
+             "            child_impl.append(\n                child_state,\n                child_dict,\n                state.obj(),\n                initiator,\n                passive=PASSIVE_NO_FETCH,\n            )\n"
+             "        return child\n\n    def emit_backref_from_collection_remove_event(\n"),
+         None)
+# tokens compared without locals, nested ifs, parent object in a local
+R.mutant("benign-append-guard-nested-ifs-inline-tokens", ATTR,
+         sub(_APPEND_TAIL_COLL,
+             "        parent_obj = state.obj()\n"
+             "        if initiator is not child_impl._append_token:\n            if check_bulk_replace_token is not initiator:\n"
+             "                child_impl.append(\n                    child_state,\n                    child_dict,\n                    parent_obj,\n                    initiator,\n                    passive=PASSIVE_NO_FETCH,\n                )\n"
+             "        return child\n\n    def emit_backref_from_collection_remove_event(\n"),
+         None)
+# `if child is None: return` <-> body under `if child is not None:`; the handler then returns the child (None) at the end
+R.mutant("benign-append-return-none-state-alias", ATTR,
+         _chain(sub("        state, child, initiator, **kw\n    ):\n        if child is None:\n            return\n\n" + _APPEND_BLOCK_COLL,
+                    "        state, child, initiator, **kw\n    ):\n        if child is None:\n            return None\n        reverse_state = instance_state(child)\n"
+                    + _APPEND_BLOCK_COLL.replace("        child_state, child_dict = instance_state(child), instance_dict(child)\n",
+                                                 "        child_state, child_dict = reverse_state, instance_dict(child)\n"))),
+         None)
+def _indent(txt, n=4):
+    return "".join((" " * n + ln if ln.strip() else ln) for ln in txt.splitlines(True))
+
+
+_APPEND_TAIL_BODY = _APPEND_TAIL_COLL.replace("        return child\n\n    def emit_backref_from_collection_remove_event(\n", "")
+R.mutant("benign-append-none-test-inverted", ATTR,
+         sub("        if child is None:\n            return\n\n" + _APPEND_BLOCK_COLL + _APPEND_TAIL_COLL,
+             "        if child is not None:\n" + _indent(_APPEND_BLOCK_COLL + _APPEND_TAIL_BODY)
+             + "        return child\n\n    def emit_backref_from_collection_remove_event(\n"),
+         None)
+# family rfF_7: hoisted common assignment, De Morgan + swapped arms in the remove handler
+R.mutant("benign-remove-tokens-hoisted-demorgan", ATTR,
+         sub("            if not child_impl.collection and not child_impl.dynamic:\n                check_remove_token = child_impl._remove_token\n                check_replace_token = child_impl._replace_token\n"
+             "                check_for_dupes_on_remove = uselist and not parent_impl.dynamic\n            else:\n                check_remove_token = child_impl._remove_token\n"
+             "                check_replace_token = (\n                    child_impl._bulk_replace_token\n                    if _is_collection_attribute_impl(child_impl)\n                    else None\n                )\n"
+             "                check_for_dupes_on_remove = False\n",
+             "            check_remove_token = child_impl._remove_token\n            if child_impl.collection or child_impl.dynamic:\n"
+             "                check_replace_token = (\n                    child_impl._bulk_replace_token\n                    if _is_collection_attribute_impl(child_impl)\n                    else None\n                )\n"
+             "                check_for_dupes_on_remove = False\n            else:\n                check_replace_token = child_impl._replace_token\n"
+             "                check_for_dupes_on_remove = uselist and not parent_impl.dynamic\n"),
+         None)
+# remove handler: guards as early returns, the duplicate test De Morganed
+R.mutant("benign-remove-guards-early-return", ATTR,
+         sub("            if (\n                initiator is not check_remove_token\n                and initiator is not check_replace_token\n            ):\n"
+             "                if not check_for_dupes_on_remove or not util.has_dupes(\n                    # when this event is called, the item is usually\n                    # present in the list, except for a pop() operation.\n"
+             "                    state.dict[parent_impl.key],\n                    child,\n                ):\n"
+             "                    child_impl.pop(\n                        child_state,\n                        child_dict,\n                        state.obj(),\n                        initiator,\n                        passive=PASSIVE_NO_FETCH,\n                    )\n",
+             "            if initiator is check_remove_token:\n                return\n            if initiator is check_replace_token:\n                return\n"
+             "            if not (\n                check_for_dupes_on_remove\n                and util.has_dupes(state.dict[parent_impl.key], child)\n            ):\n"
+             "                child_impl.pop(\n                    child_state,\n                    child_dict,\n                    state.obj(),\n                    initiator,\n                    passive=PASSIVE_NO_FETCH,\n                )\n"),
+         None)
+# set handler: the pop from the old child extracted into a closure with an early return
+R.mutant("benign-set-pop-extracted-to-closure", ATTR,
+         _chain(sub("            old_state, old_dict = (\n                instance_state(oldchild),\n                instance_dict(oldchild),\n            )\n            impl = old_state.manager[key].impl\n\n"
+                    "            # tokens to test for a recursive loop.\n            if not impl.collection and not impl.dynamic:\n                check_recursive_token = impl._replace_token\n            else:\n                check_recursive_token = impl._remove_token\n\n"
+                    "            if initiator is not check_recursive_token:\n                impl.pop(\n                    old_state,\n                    old_dict,\n                    state.obj(),\n                    parent_impl._append_token,\n                    passive=PASSIVE_NO_FETCH,\n                )\n",
+                    "            _pop_from_previous(state, oldchild, initiator)\n"),
+                sub("    def emit_backref_from_scalar_set_event(\n",
+                    "    def _pop_from_previous(state, previous, initiator):\n"
+                    "        old_state = instance_state(previous)\n        old_dict = instance_dict(previous)\n        impl = old_state.manager[key].impl\n"
+                    "        if impl.collection or impl.dynamic:\n            check_recursive_token = impl._remove_token\n        else:\n            check_recursive_token = impl._replace_token\n"
+                    "        if initiator is check_recursive_token:\n            return\n"
+                    "        impl.pop(\n            old_state,\n            old_dict,\n            state.obj(),\n            parent_impl._append_token,\n            passive=PASSIVE_NO_FETCH,\n        )\n\n"
+                    "    def emit_backref_from_scalar_set_event(\n")),
+         None)
+# registrations: arms swapped / early return
+R.mutant("benign-listen-arms-swapped", ATTR,
+         sub("    if uselist:\n        event.listen(\n            attribute,\n            \"append\",\n            emit_backref_from_collection_append_event,\n            retval=True,\n            raw=True,\n            include_key=True,\n        )\n"
+             "    else:\n        event.listen(\n            attribute,\n            \"set\",\n            emit_backref_from_scalar_set_event,\n            retval=True,\n            raw=True,\n            include_key=True,\n        )\n",
+             "    is_collection = uselist\n    if not is_collection:\n        event.listen(\n            attribute,\n            \"set\",\n            emit_backref_from_scalar_set_event,\n            retval=True,\n            raw=True,\n            include_key=True,\n        )\n"
+             "    else:\n        event.listen(\n            attribute,\n            \"append\",\n            emit_backref_from_collection_append_event,\n            retval=True,\n            raw=True,\n            include_key=True,\n        )\n"),
+         None)
+# family rfF_9: renamed token local, raise extracted into a NoReturn helper
+R.mutant("benign-collection-set-token-renamed-raise-extracted", ATTR,
+         _chain(sub("        evt = self._bulk_replace_token\n\n        self.dispatch.bulk_replace(state, new_values, evt, keys=new_keys)\n",
+                    "        bulk_token = self._bulk_replace_token\n\n        self.dispatch.bulk_replace(\n            state, new_values, bulk_token, keys=new_keys\n        )\n"),
+                sub("            new_values, old_collection, new_collection, initiator=evt\n",
+                    "            new_values,\n            old_collection,\n            new_collection,\n            initiator=bulk_token,\n")),
+         None)
+# bulk_replace: disjoint arms the other way round, early return instead of `if existing_adapter:`
+R.mutant("benign-bulk-replace-arms-swapped-early-return", COLL,
+         _chain(sub("        if member in additions:\n            appender(member, _sa_initiator=initiator)\n        elif member in constants:\n            appender(member, _sa_initiator=False)\n",
+                    "        if member in constants:\n            appender(member, _sa_initiator=False)\n        elif member in additions:\n            appender(member, _sa_initiator=initiator)\n"),
+                sub("    if existing_adapter:\n        existing_adapter._fire_append_wo_mutation_event_bulk(\n            constants, initiator=initiator\n        )\n        existing_adapter._fire_remove_event_bulk(removals, initiator=initiator)\n",
+                    "    if not existing_adapter:\n        return\n    existing_adapter._fire_append_wo_mutation_event_bulk(\n        constants, initiator=initiator\n    )\n    existing_adapter._fire_remove_event_bulk(removals, initiator=initiator)\n")),
+         None)
+# breaking edits on top of the refactored shapes: the rules must see through the helper / early return as well
+_CLOSURE_HELPER = (
+    "        _mirror_append(state, child, initiator)\n        return child\n\n"
+    "    def _mirror_append(parent_state, target, token):\n"
+    + (_APPEND_BLOCK_COLL + _APPEND_TAIL_BODY)
+    .replace("(state, initiator, child_impl)", "(parent_state, token, child_impl)")
+    .replace("instance_state(child), instance_dict(child)", "instance_state(target), instance_dict(target)")
+    .replace("initiator", "token").replace("state.obj()", "parent_state.obj()")
+    + "\n    def emit_backref_from_collection_remove_event(\n")
+R.mutant("closure-helper-guard-against-parent-token", ATTR,
+         _chain(sub(_APPEND_BLOCK_SET, "            _mirror_append(state, child, initiator)\n        return child\n"),
+                sub(_APPEND_BLOCK_COLL + _APPEND_TAIL_COLL,
+                    _CLOSURE_HELPER.replace("        check_append_token = child_impl._append_token\n", "        check_append_token = parent_impl._append_token\n"))),
+         "C37-R2")
+R.mutant("closure-helper-passes-child", ATTR,
+         _chain(sub(_APPEND_BLOCK_SET, "            _mirror_append(state, child, initiator)\n        return child\n"),
+                sub(_APPEND_BLOCK_COLL + _APPEND_TAIL_COLL, _CLOSURE_HELPER.replace("parent_state.obj(),\n", "target,\n"))),
+         "C37-R1")
+R.mutant("early-return-guard-without-return", ATTR,
+         sub(_APPEND_TAIL_COLL,
+             "        if (\n            initiator is check_append_token\n            or initiator is check_bulk_replace_token\n        ):\n            pass\n"
+             "        child_impl.append(\n            child_state,\n            child_dict,\n            state.obj(),\n            initiator,\n            passive=PASSIVE_NO_FETCH,\n        )\n"
+             "        return child\n\n    def emit_backref_from_collection_remove_event(\n"),
+         "C37-R2")
+R.mutant("early-return-guard-returns-nothing", ATTR,
+         sub(_APPEND_TAIL_COLL,
+             "        if (\n            initiator is check_append_token\n            or initiator is check_bulk_replace_token\n        ):\n            return\n"
+             "        child_impl.append(\n            child_state,\n            child_dict,\n            state.obj(),\n            initiator,\n            passive=PASSIVE_NO_FETCH,\n        )\n"
+             "        return child\n\n    def emit_backref_from_collection_remove_event(\n"),
+         "C37-R1")
+R.mutant("none-test-inverted-no-final-return", ATTR,
+         sub("        if child is None:\n            return\n\n" + _APPEND_BLOCK_COLL + _APPEND_TAIL_COLL,
+             "        if child is not None:\n" + _indent(_APPEND_BLOCK_COLL + _APPEND_TAIL_BODY)
+             + "\n    def emit_backref_from_collection_remove_event(\n"),
+         "C37-R1")
+R.mutant("boolean-local-guard-or-becomes-and", ATTR,
+         sub(_APPEND_TAIL_COLL,
+             "        recursing = (\n            initiator is check_append_token\n            and initiator is check_bulk_replace_token\n        )\n"
+             "        if not recursing:\n"
+             "            child_impl.append(\n                child_state,\n                child_dict,\n                state.obj(),\n                initiator,\n                passive=PASSIVE_NO_FETCH,\n            )\n"
+             "        return child\n\n    def emit_backref_from_collection_remove_event(\n"),
+         "C37-R2")
+R.mutant("pop-helper-pops-from-new-child", ATTR,
+         _chain(sub("            old_state, old_dict = (\n                instance_state(oldchild),\n                instance_dict(oldchild),\n            )\n            impl = old_state.manager[key].impl\n\n"
+                    "            # tokens to test for a recursive loop.\n            if not impl.collection and not impl.dynamic:\n                check_recursive_token = impl._replace_token\n            else:\n                check_recursive_token = impl._remove_token\n\n"
+                    "            if initiator is not check_recursive_token:\n                impl.pop(\n                    old_state,\n                    old_dict,\n                    state.obj(),\n                    parent_impl._append_token,\n                    passive=PASSIVE_NO_FETCH,\n                )\n",
+                    "            _pop_from_previous(state, child, initiator)\n"),
+                sub("    def emit_backref_from_scalar_set_event(\n",
+                    "    def _pop_from_previous(state, previous, initiator):\n"
+                    "        old_state = instance_state(previous)\n        old_dict = instance_dict(previous)\n        impl = old_state.manager[key].impl\n"
+                    "        if impl.collection or impl.dynamic:\n            check_recursive_token = impl._remove_token\n        else:\n            check_recursive_token = impl._replace_token\n"
+                    "        if initiator is check_recursive_token:\n            return\n"
+                    "        impl.pop(\n            old_state,\n            old_dict,\n            state.obj(),\n            parent_impl._append_token,\n            passive=PASSIVE_NO_FETCH,\n        )\n\n"
+                    "    def emit_backref_from_scalar_set_event(\n")),
+         "C37-R1")
+R.mutant("listen-early-return-skips-remove", ATTR,
+         sub("    else:\n        event.listen(\n            attribute,\n            \"set\",\n            emit_backref_from_scalar_set_event,\n            retval=True,\n            raw=True,\n            include_key=True,\n        )\n",
+             "        return\n    event.listen(\n        attribute,\n        \"set\",\n        emit_backref_from_scalar_set_event,\n        retval=True,\n        raw=True,\n        include_key=True,\n    )\n"),
+         "C37-R3")
